@@ -46,21 +46,65 @@ def main():
         "pid": os.getpid(),
     }
     _proto_out.write((json.dumps(hello) + "\n").encode())
-    for line in sys.stdin.buffer:
-        line = line.strip()
-        if not line:
-            continue
-        job = json.loads(line)
-        try:
-            mod = importlib.import_module("checks." + job["engine"])
-            fn = getattr(mod, job["fn"])
-        except Exception as e:  # noqa
-            import traceback
+    # Every job is served by a child forked from this process *before* the job is
+    # read, so the state a job starts from (heap free lists included: id recycling
+    # is observable) never depends on the jobs this host served earlier.
+    while True:
+        pid = os.fork()
+        if pid == 0:
+            code = 0
+            try:
+                code = _serve_one(fork_call)
+            except BaseException:  # noqa
+                import traceback
 
-            res = {"status": "error", "err": traceback.format_exc()}
-        else:
-            res = fork_call(fn, (job["payload"],), timeout=job.get("timeout", 120))
-        _proto_out.write((json.dumps(res) + "\n").encode())
+                traceback.print_exc()
+                try:
+                    _proto_out.write((json.dumps({"status": "error", "err": traceback.format_exc()}) + "\n").encode())
+                except Exception:  # noqa
+                    pass
+                code = 4
+            finally:
+                os._exit(code)
+        _, status = os.waitpid(pid, 0)
+        if os.WEXITSTATUS(status) == 3 or not os.WIFEXITED(status):
+            break
+
+
+def _read_exact(n):
+    chunks = []
+    while n > 0:
+        b = os.read(0, min(n, 1 << 20))
+        if not b:
+            return None
+        chunks.append(b)
+        n -= len(b)
+    return b"".join(chunks)
+
+
+def _serve_one(fork_call):
+    """Read one length-prefixed job from fd 0 (unbuffered), run it, answer."""
+    header = b""
+    while not header.endswith(b"\n"):
+        b = os.read(0, 1)
+        if not b:
+            return 3  # end of input: the host is done
+        header += b
+    data = _read_exact(int(header))
+    if data is None:
+        return 3
+    job = json.loads(data)
+    try:
+        mod = importlib.import_module("checks." + job["engine"])
+        fn = getattr(mod, job["fn"])
+    except Exception:  # noqa
+        import traceback
+
+        res = {"status": "error", "err": traceback.format_exc()}
+    else:
+        res = fork_call(fn, (job["payload"],), timeout=job.get("timeout", 120))
+    _proto_out.write((json.dumps(res) + "\n").encode())
+    return 0
 
 
 if __name__ == "__main__":
